@@ -18,6 +18,7 @@ import (
 	"encoding/json"
 	"errors"
 	"fmt"
+	"os"
 	"sort"
 	"strconv"
 	"strings"
@@ -646,22 +647,33 @@ func (x *exec) Check(res *vsched.Result) *eng.Violation {
 	}
 	recv := x.receiver()
 	fin := x.finals()
-	var bestD []cdiff
-	bestT := ""
-	for i, st := range fin {
-		d, t := diff(st.expected(x.sc.have), recv)
-		if len(d) == 0 && !x.stuck {
+	for _, st := range fin {
+		if d, _ := diff(st.expected(x.sc.have), recv); len(d) == 0 && !x.stuck {
 			return nil
 		}
-		if i == 0 || len(d) < len(bestD) || (len(d) == len(bestD) && t < bestT) {
-			bestD, bestT = d, t
+	}
+	// No admissible linearisation agrees. Classify against the linearisation in return order (always
+	// admissible; the calls return right after their single critical section, so it is the likeliest real order).
+	var cs []call
+	for _, c := range x.calls {
+		if c.o.model() {
+			cs = append(cs, c)
 		}
 	}
+	sort.SliceStable(cs, func(i, j int) bool { return cs[i].ret < cs[j].ret })
+	var ro cstate
+	for _, c := range cs {
+		ro.apply(c.o)
+	}
+	bestD, bestT := diff(ro.expected(x.sc.have), recv)
 	if len(bestD) == 0 {
 		// the messages agree with the wants, yet work is queued that no timer or signal will ever send
 		return eng.V("queue-not-drained", "quiescence", fmt.Sprintf("pending work is still queued after %d idle debounce rounds: %s\n%s", maxIter, x.dump, x.history()), x.features(cdiff{-1, "none"}, res)...)
 	}
 	detail := fmt.Sprintf("at quiescence the receiver-side want-list differs from the client's wants under every admissible linearisation (%d); closest:%s\nqueue state: %s\n%s", len(fin), bestT, x.dump, x.history())
+	if os.Getenv("VERIF_C35_SHOW") != "" { // debugging aid: list every diverging history (also the known ones)
+		fmt.Fprintf(os.Stderr, "C35SHOW %s %v | %s |%s | %v\n", x.sc.name, x.features(bestD[0], res), x.resolved, bestT, res.Choices)
+	}
 	// one violation per execution: classified by the lowest diverged CID
 	return eng.V("wantlist-diverged", "quiescence", detail, x.features(bestD[0], res)...)
 }
